@@ -38,6 +38,10 @@ var swap = map[token.Token][]string{
 }
 
 func main() {
+	if len(os.Args) > 1 && os.Args[1] == "-benign" {
+		benign(os.Args[2:])
+		return
+	}
 	var out []Mut
 	for _, path := range os.Args[1:] {
 		src, err := os.ReadFile(path)
@@ -151,4 +155,94 @@ func main() {
 func isOne(e ast.Expr) bool {
 	bl, ok := e.(*ast.BasicLit)
 	return ok && bl.Kind == token.INT && bl.Value == "1"
+}
+
+// benign lists behaviour-preserving rewrites (the mirror image of the mutations above): none of them may make any
+// check report anything. Operands are swapped only when at most one of them contains a call; a condition is moved
+// into a local only for an `if` without init statement that sits directly in a block.
+func benign(paths []string) {
+	var out []Mut
+	for _, path := range paths {
+		src, err := os.ReadFile(path)
+		if err != nil {
+			fmt.Fprintln(os.Stderr, err)
+			os.Exit(2)
+		}
+		fset := token.NewFileSet()
+		f, err := parser.ParseFile(fset, path, src, parser.ParseComments)
+		if err != nil {
+			fmt.Fprintln(os.Stderr, err)
+			os.Exit(2)
+		}
+		off := func(p token.Pos) int { return fset.Position(p).Offset }
+		text := func(n ast.Node) string { return string(src[off(n.Pos()):off(n.End())]) }
+		hasCall := func(e ast.Expr) bool {
+			found := false
+			ast.Inspect(e, func(n ast.Node) bool {
+				if c, ok := n.(*ast.CallExpr); ok {
+					if id, isId := c.Fun.(*ast.Ident); isId && (id.Name == "len" || id.Name == "cap" || id.Name == "int" || id.Name == "int64" || id.Name == "int32") {
+						return true
+					}
+					found = true
+				}
+				return true
+			})
+			return found
+		}
+		mirror := map[token.Token]string{token.EQL: "==", token.NEQ: "!=", token.LSS: ">", token.GTR: "<", token.LEQ: ">=", token.GEQ: "<="}
+		for _, d := range f.Decls {
+			fd, ok := d.(*ast.FuncDecl)
+			if !ok || fd.Body == nil {
+				continue
+			}
+			name := fd.Name.Name
+			if fd.Recv != nil && len(fd.Recv.List) == 1 {
+				var b strings.Builder
+				ast.Inspect(fd.Recv.List[0].Type, func(n ast.Node) bool {
+					if id, ok := n.(*ast.Ident); ok {
+						b.WriteString(id.Name)
+					}
+					return true
+				})
+				name = b.String() + "." + name
+			}
+			add := func(kind string, from, to token.Pos, repl string) {
+				out = append(out, Mut{File: path, Func: name, Line: fset.Position(from).Line, Kind: kind, Off: off(from), End: off(to), Old: string(src[off(from):off(to)]), New: repl})
+			}
+			ast.Inspect(fd.Body, func(n ast.Node) bool {
+				switch x := n.(type) {
+				case *ast.BinaryExpr:
+					if m, ok := mirror[x.Op]; ok && !(hasCall(x.X) && hasCall(x.Y)) {
+						add("benign: operands swapped", x.Pos(), x.End(), text(x.Y)+" "+m+" "+text(x.X))
+					}
+				case *ast.IncDecStmt:
+					op := "+= 1"
+					if x.Tok == token.DEC {
+						op = "-= 1"
+					}
+					add("benign: ++ as += 1", x.Pos(), x.End(), text(x.X)+" "+op)
+				case *ast.BlockStmt:
+					for _, st := range x.List {
+						iff, ok := st.(*ast.IfStmt)
+						if !ok || iff.Init != nil {
+							continue
+						}
+						line := fset.Position(iff.Pos()).Line
+						// condition into a local
+						add("benign: condition in a local", iff.Pos(), iff.Body.Lbrace, fmt.Sprintf("cnd%d := %s\n\tif cnd%d ", line, text(iff.Cond), line))
+						// a && b without else -> nested ifs
+						if be, isB := iff.Cond.(*ast.BinaryExpr); isB && be.Op == token.LAND && iff.Else == nil {
+							add("benign: && as nested ifs", iff.Pos(), iff.End(), "if "+text(be.X)+" {\nif "+text(be.Y)+" "+text(iff.Body)+"\n}")
+						}
+						// if/else inverted
+						if els, isBlk := iff.Else.(*ast.BlockStmt); isBlk {
+							add("benign: if/else inverted", iff.Pos(), iff.End(), "if !("+text(iff.Cond)+") "+text(els)+" else "+text(iff.Body))
+						}
+					}
+				}
+				return true
+			})
+		}
+	}
+	json.NewEncoder(os.Stdout).Encode(out)
 }
